@@ -27,30 +27,32 @@ theorem eof_tail (hdr : PicHdr) (running : Nat) (ip : Bool) (ctx : HdrCtx hdr ru
 
 /-- **The macroblock loop on a picture body that ends early.**  The description holds at most the macroblocks still missing; if it
 holds fewer, what follows reads as end of data.  The loop performs the semantic steps of the described macroblocks and stops. -/
-theorem mbLoop_encode_le (d : DecOpts) (hdr : PicHdr) (dims : Option (Nat × Nat)) (running w total : Nat) (hw : w ≠ 0) (ip : Bool)
-    (ctx : HdrCtx hdr running ip) (rest : Bits) (htail : ∀ p, decodeMacroblock hdr running ⟨rest, p⟩ = .err .eof) :
+theorem mbLoop_encode_stop (d : DecOpts) (hdr : PicHdr) (dims : Option (Nat × Nat)) (running w total : Nat) (hw : w ≠ 0) (ip : Bool)
+    (ctx : HdrCtx hdr running ip) (rest : Bits) (E : Nat)
+    (hstop : ∀ l : Loop, l.types.size < total →
+      mbStep d hdr dims running w total { l with cur := ⟨rest, E⟩ } = .ok (.stop { l with cur := ⟨rest, E⟩ })) :
     ∀ (mbs : List MbD) (l : Loop) (fuel pos : Nat), l.types.size + mbs.length ≤ total → iters mbs < fuel →
-      (∀ m ∈ mbs, MbOK d hdr ip m) →
+      (∀ m ∈ mbs, MbOK d hdr ip m) → pos + (mbs.flatMap (encodeMb ip)).length = E →
       mbLoop d hdr dims running w total fuel { l with cur := ⟨mbs.flatMap (encodeMb ip) ++ rest, pos⟩ } =
         Out.mapCur (semMbs hdr dims running w mbs l) ⟨rest, pos + (mbs.flatMap (encodeMb ip)).length⟩ := by
   intro mbs
   induction mbs with
   | nil =>
-    intro l fuel pos hn hf _
+    intro l fuel pos hn hf _ hE
     obtain ⟨f, rfl⟩ : ∃ f, fuel = f + 1 := ⟨fuel - 1, by simp [iters] at hf; omega⟩
     rw [mbLoop_succ]
-    unfold mbStep
-    simp only [List.length_nil, Nat.add_zero] at hn
-    simp only
+    simp only [List.flatMap_nil, List.length_nil, Nat.add_zero] at hE
+    subst hE
+    simp only [List.flatMap_nil, List.nil_append]
     by_cases hfull : l.types.size ≥ total
-    · rw [if_pos hfull]
+    · unfold mbStep
+      simp only
+      rw [if_pos hfull]
       simp [semMbs]
-    · rw [if_neg hfull, if_neg hw]
-      simp only [List.flatMap_nil, List.nil_append]
-      rw [htail pos]
+    · rw [hstop l (by omega)]
       simp [semMbs]
   | cons m ms ih =>
-    intro l fuel pos hn hf hok
+    intro l fuel pos hn hf hok hE
     simp only [List.length_cons] at hn
     simp only [iters] at hf
     obtain ⟨f, rfl⟩ : ∃ f, fuel = (f + 1) + m.stuffing := ⟨fuel - 1 - m.stuffing, by omega⟩
@@ -64,7 +66,8 @@ theorem mbLoop_encode_le (d : DecOpts) (hdr : PicHdr) (dims : Option (Nat × Nat
     | ok l1 =>
       simp only [mapCur_ok, Out.bind_ok]
       have ht := semMb_types hdr dims running w l l1 m hs
-      rw [ih l1 f _ (by omega) (by omega) (fun x hx => hok x (by simp [hx]))]
+      rw [ih l1 f _ (by omega) (by omega) (fun x hx => hok x (by simp [hx]))
+        (by simp only [List.flatMap_cons, encodeMb_eq, List.length_append] at hE; omega)]
       simp only [List.length_append, Nat.add_assoc]
     | err e => rfl
     | panic s => rfl
@@ -74,11 +77,14 @@ theorem mbLoop_encode_le (d : DecOpts) (hdr : PicHdr) (dims : Option (Nat × Nat
 followed, when there are fewer, by something that reads as end of data: the result is the bit-free semantics of the SHORT list
 — `semCore` completes the type and vector arrays with not-coded macroblocks (INTER, zero vectors) and leaves their level slots
 `Zero`, so that reconstruction copies the co-located reference macroblocks (`zero_vector_copies`). -/
-theorem decodeCore_encode_le (s : State) (hbits : Bits) (hdr : PicHdr) (ip : Bool) (mbs : List MbD) (w h : Nat)
+theorem decodeCore_encode_stop (s : State) (hbits : Bits) (hdr : PicHdr) (ip : Bool) (mbs : List MbD) (w h : Nat)
     (hhdr : ∀ r p, Header.decodePicture s.opts (s.getLast.map (·.hdr)) ⟨hbits ++ r, p⟩ = .ok (some hdr, ⟨r, p + hbits.length⟩))
     (hdims : dimsOf s hdr = some (w, h)) (hcount : mbs.length ≤ (w + 15) / 16 * ((h + 15) / 16))
-    (ctx : HdrCtx hdr (nextRunning hdr s.running) ip) (hok : ∀ m ∈ mbs, MbOK s.opts hdr ip m) (rest : Bits)
-    (htail : ∀ p, decodeMacroblock hdr (nextRunning hdr s.running) ⟨rest, p⟩ = .err .eof) (pos : Nat) :
+    (ctx : HdrCtx hdr (nextRunning hdr s.running) ip) (hok : ∀ m ∈ mbs, MbOK s.opts hdr ip m) (rest : Bits) (pos : Nat)
+    (hstop : ∀ l : Loop, l.types.size < (w + 15) / 16 * ((h + 15) / 16) →
+      mbStep s.opts hdr (some (w, h)) (nextRunning hdr s.running) ((w + 15) / 16) ((w + 15) / 16 * ((h + 15) / 16))
+        { l with cur := ⟨rest, pos + hbits.length + (mbs.flatMap (encodeMb ip)).length⟩ } =
+      .ok (.stop { l with cur := ⟨rest, pos + hbits.length + (mbs.flatMap (encodeMb ip)).length⟩ })) :
     decodeCore s ⟨hbits ++ (mbs.flatMap (encodeMb ip) ++ rest), pos⟩ =
       semCore s hdr mbs >>= fun r => .ok (r.1, r.2, ⟨rest, pos + hbits.length + (mbs.flatMap (encodeMb ip)).length⟩) := by
   unfold decodeCore semCore
@@ -116,14 +122,14 @@ theorem decodeCore_encode_le (s : State) (hbits : Bits) (hdr : PicHdr) (ip : Boo
       | some pic =>
         simp only
         have hw : (w + 15) / 16 ≠ 0 := by omega
-        have hloop := mbLoop_encode_le s.opts hdr (some (w, h)) (nextRunning hdr s.running) ((w + 15) / 16)
-          ((w + 15) / 16 * ((h + 15) / 16)) hw ip ctx rest htail mbs
+        have hloop := mbLoop_encode_stop s.opts hdr (some (w, h)) (nextRunning hdr s.running) ((w + 15) / 16)
+          ((w + 15) / 16 * ((h + 15) / 16)) hw ip ctx rest _ hstop mbs
           { cur := ⟨[], 0⟩, quant := hdr.quantizer, mvs := #[], types := #[],
             lumaLv := Array.replicate ((w + 15) / 16 * 16 * ((h + 15) / 16 * 16) / 64) .zero,
             cbLv := Array.replicate ((w + 15) / 16 * 16 * ((h + 15) / 16 * 16) / 4 / 64) .zero,
             crLv := Array.replicate ((w + 15) / 16 * 16 * ((h + 15) / 16 * 16) / 4 / 64) .zero }
           ((mbs.flatMap (encodeMb ip) ++ rest).length + (w + 15) / 16 * ((h + 15) / 16) + 2) (pos + hbits.length)
-          (by simpa using hcount) (by have := iters_le ip mbs; simp only [List.length_append]; omega) hok
+          (by simpa using hcount) (by have := iters_le ip mbs; simp only [List.length_append]; omega) hok rfl
         simp only at hloop
         rw [hloop]
         cases hsem : semMbs hdr (some (w, h)) (nextRunning hdr s.running) ((w + 15) / 16) mbs
@@ -145,6 +151,29 @@ theorem decodeCore_encode_le (s : State) (hbits : Bits) (hdr : PicHdr) (ip : Boo
           | err e => rfl
           | panic m => rfl
           | fuel => rfl
+
+/-- the stop condition of `decodeCore_encode_stop` when what follows reads as end of data -/
+theorem stop_of_eof (d : DecOpts) (hdr : PicHdr) (dims : Option (Nat × Nat)) (running w total : Nat) (hw : w ≠ 0) (rest : Bits)
+    (htail : ∀ p, decodeMacroblock hdr running ⟨rest, p⟩ = .err .eof) (E : Nat) (l : Loop) (hl : l.types.size < total) :
+    mbStep d hdr dims running w total { l with cur := ⟨rest, E⟩ } = .ok (.stop { l with cur := ⟨rest, E⟩ }) := by
+  unfold mbStep
+  simp only
+  rw [if_neg (by omega), if_neg hw, htail E]
+  simp
+
+theorem decodeCore_encode_le (s : State) (hbits : Bits) (hdr : PicHdr) (ip : Bool) (mbs : List MbD) (w h : Nat)
+    (hhdr : ∀ r p, Header.decodePicture s.opts (s.getLast.map (·.hdr)) ⟨hbits ++ r, p⟩ = .ok (some hdr, ⟨r, p + hbits.length⟩))
+    (hdims : dimsOf s hdr = some (w, h)) (hcount : mbs.length ≤ (w + 15) / 16 * ((h + 15) / 16))
+    (ctx : HdrCtx hdr (nextRunning hdr s.running) ip) (hok : ∀ m ∈ mbs, MbOK s.opts hdr ip m) (rest : Bits)
+    (htail : ∀ p, decodeMacroblock hdr (nextRunning hdr s.running) ⟨rest, p⟩ = .err .eof) (pos : Nat) :
+    decodeCore s ⟨hbits ++ (mbs.flatMap (encodeMb ip) ++ rest), pos⟩ =
+      semCore s hdr mbs >>= fun r => .ok (r.1, r.2, ⟨rest, pos + hbits.length + (mbs.flatMap (encodeMb ip)).length⟩) :=
+  decodeCore_encode_stop s hbits hdr ip mbs w h hhdr hdims hcount ctx hok rest pos
+    (fun l hl => stop_of_eof s.opts hdr _ _ _ _ (by
+      have : dimsOf s hdr = some (w, h) := hdims
+      intro h0
+      have : (w + 15) / 16 * ((h + 15) / 16) = 0 := by rw [h0]; simp
+      omega) rest htail _ l hl)
 
 /-- **A Sorenson picture that ends early**: the described macroblocks, then at most seven zero padding bits, then the end of the
 data.  The call commits the picture the bit-free semantics computes from the short list — the remaining macroblocks are copies of
